@@ -980,4 +980,627 @@ theorem add_appends (t0 : T) (batch : List Change) (hwf : WFAtt t0.att) (hun : t
   · have := i.wf; rw [e] at this; exact this
 
 
+
+/-! ### the stored sequence (`storeInsert`) -/
+
+theorem insertAfter_cons_eq (p x : Nat) (l : List Nat) : insertAfter p x (p :: l) = p :: x :: l := by
+  simp [insertAfter]
+
+theorem insertAfter_cons_ne {a p : Nat} (x : Nat) (l : List Nat) (h : a ≠ p) :
+    insertAfter p x (a :: l) = a :: insertAfter p x l := by
+  simp [insertAfter, h]
+
+theorem mem_insertAfter {p x y : Nat} {l : List Nat} : y ∈ insertAfter p x l ↔ y = x ∨ y ∈ l := by
+  induction l with
+  | nil => simp [insertAfter]
+  | cons a l ih =>
+    unfold insertAfter
+    split
+    · simp only [List.mem_cons]; constructor
+      · rintro (h | h | h) <;> simp [h]
+      · rintro (h | h | h) <;> simp [h]
+    · simp only [List.mem_cons, ih]; constructor
+      · rintro (h | h | h) <;> simp [h]
+      · rintro (h | h | h) <;> simp [h]
+
+theorem nodup_insertAfter {p x : Nat} {l : List Nat} (h : l.Nodup) (hx : x ∉ l) : (insertAfter p x l).Nodup := by
+  induction l with
+  | nil => simp [insertAfter]
+  | cons a l ih =>
+    have h' := List.nodup_cons.mp h
+    have hxa : x ≠ a := fun e => hx (by simp [e])
+    have hxl : x ∉ l := fun e => hx (List.mem_cons_of_mem _ e)
+    unfold insertAfter
+    split
+    · refine List.nodup_cons.mpr ⟨?_, List.nodup_cons.mpr ⟨hxl, h'.2⟩⟩
+      intro hm; rcases List.mem_cons.mp hm with e | e
+      · exact hxa e.symm
+      · exact h'.1 e
+    · refine List.nodup_cons.mpr ⟨?_, ih h'.2 hxl⟩
+      intro hm; rcases mem_insertAfter.mp hm with e | e
+      · exact hxa e.symm
+      · exact h'.1 e
+
+theorem filter_insertAfter_keep (k : Nat → Bool) {p x : Nat} (hx : k x = true) :
+    ∀ l : List Nat, (∀ a ∈ l, a = p → k a = true) → (insertAfter p x l).filter k = insertAfter p x (l.filter k) := by
+  intro l
+  induction l with
+  | nil => intro _; simp [insertAfter, hx]
+  | cons a l ih =>
+    intro hp
+    by_cases hap : a = p
+    · subst hap
+      have hka : k a = true := hp a (by simp) rfl
+      rw [insertAfter_cons_eq, List.filter_cons, if_pos hka, List.filter_cons, if_pos hx,
+        List.filter_cons, if_pos hka, insertAfter_cons_eq]
+    · have ih' := ih (fun b hb => hp b (List.mem_cons_of_mem _ hb))
+      rw [insertAfter_cons_ne x l hap]
+      cases hka : k a
+      · rw [List.filter_cons, List.filter_cons]; simp only [hka, Bool.false_eq_true, if_false]; exact ih'
+      · rw [List.filter_cons, List.filter_cons]; simp only [hka, if_true]
+        rw [insertAfter_cons_ne x _ hap, ih']
+
+theorem filter_insertAfter_drop (k : Nat → Bool) {p x : Nat} (hx : k x = false) :
+    ∀ l : List Nat, (insertAfter p x l).filter k = l.filter k := by
+  intro l
+  induction l with
+  | nil => simp [insertAfter, hx]
+  | cons a l ih =>
+    unfold insertAfter
+    split
+    · simp [List.filter_cons, hx]
+    · simp [List.filter_cons, ih]
+
+theorem insertAfter_append {p x : Nat} {A B : List Nat} (h : p ∉ A) :
+    insertAfter p x (A ++ p :: B) = A ++ p :: x :: B := by
+  induction A with
+  | nil => simp [insertAfter]
+  | cons a A ih =>
+    have hap : a ≠ p := fun e => h (by simp [e])
+    have : p ∉ A := fun e => h (List.mem_cons_of_mem _ e)
+    simp [insertAfter, hap, ih this]
+
+
+/-- the body of the `storeInsert` fold -/
+def storeStep (acc : List Nat × Option Nat) (x : Nat) : List Nat × Option Nat :=
+  if acc.1.contains x then (acc.1, some x)
+  else match acc.2 with
+    | none => (x :: acc.1, some x)
+    | some p => (insertAfter p x acc.1, some x)
+
+theorem storeInsert_eq (S it : List Nat) : storeInsert S it = (it.foldl storeStep (S, none)).1 := rfl
+
+theorem filter_congr_mem {l : List Nat} {p q : Nat → Bool} (h : ∀ y ∈ l, p y = q y) : l.filter p = l.filter q :=
+  List.filter_congr h
+
+theorem storeFold_spec (old : Nat → Bool) (S it' : List Nat) (hit : it'.Nodup)
+    (h0 : S.filter old = it'.filter old) (hnew : ∀ x ∈ it', old x = false → x ∉ S) :
+    ∀ (Q P : List Nat) (acc : List Nat), it' = P ++ Q →
+      acc.Nodup → (∀ x ∈ acc, x ∈ S ∨ x ∈ P) → (∀ x ∈ S, x ∈ acc) → (∀ x ∈ P, x ∈ acc) →
+      acc.filter (fun y => old y || P.contains y) = it'.filter (fun y => old y || P.contains y) →
+      acc.filter (fun y => S.contains y) = S →
+      ((Q.foldl storeStep (acc, P.getLast?)).1.filter (fun y => old y || it'.contains y) = it' ∧
+       (Q.foldl storeStep (acc, P.getLast?)).1.filter (fun y => S.contains y) = S ∧
+       (Q.foldl storeStep (acc, P.getLast?)).1.Nodup ∧
+       (∀ y ∈ (Q.foldl storeStep (acc, P.getLast?)).1, y ∈ S ∨ y ∈ it')) := by
+  intro Q
+  induction Q with
+  | nil =>
+    intro P acc hdec hnd hsub0 _ _ hf hs
+    have hP : it' = P := by simpa using hdec
+    subst hP
+    refine ⟨?_, hs, hnd, hsub0⟩
+    simp only [List.foldl_nil]
+    rw [hf]
+    rw [List.filter_eq_self]
+    intro y hy; simp [hy]
+  | cons x Q ih =>
+    intro P acc hdec hnd hsub hS hP hf hs
+    have hdec' : it' = (P ++ [x]) ++ Q := by rw [hdec]; simp
+    have hx_it : x ∈ it' := by rw [hdec]; simp
+    have hnd_it := hit
+    rw [hdec] at hnd_it
+    have hxP : x ∉ P := by
+      intro h
+      have := (List.nodup_append.mp hnd_it).2.2 x h x (by simp)
+      exact this rfl
+    have hxQ : x ∉ Q := (List.nodup_cons.mp (List.nodup_append.mp hnd_it).2.1).1
+    have hlast : (P ++ [x]).getLast? = some x := List.getLast?_concat
+    simp only [List.foldl_cons]
+    by_cases hc : acc.contains x = true
+    · -- already stored: nothing moves
+      have hstep : storeStep (acc, P.getLast?) x = (acc, (P ++ [x]).getLast?) := by
+        unfold storeStep; rw [if_pos hc, hlast]
+      rw [hstep]
+      have hxacc : x ∈ acc := List.contains_iff_mem.mp hc
+      have hxS : x ∈ S := by
+        rcases hsub x hxacc with h | h
+        · exact h
+        · exact absurd h hxP
+      have hold : old x = true := by
+        cases h : old x
+        · exact absurd hxS (hnew x hx_it h)
+        · rfl
+      have hK : ∀ y, (old y || (P ++ [x]).contains y) = (old y || P.contains y) := by
+        intro y
+        by_cases hyx : y = x
+        · subst hyx; simp [hold]
+        · simp [hyx]
+      apply ih (P ++ [x]) acc hdec' hnd
+      · intro y hy; rcases hsub y hy with h | h
+        · exact Or.inl h
+        · exact Or.inr (List.mem_append.mpr (Or.inl h))
+      · exact hS
+      · intro y hy; rcases List.mem_append.mp hy with h | h
+        · exact hP y h
+        · have : y = x := by simpa using h
+          exact this ▸ hxacc
+      · rw [filter_congr_mem (fun y _ => hK y), filter_congr_mem (l := it') (fun y _ => hK y)]; exact hf
+      · exact hs
+    · -- a new change: placed right after its predecessor
+      have hxacc : x ∉ acc := fun h => hc (List.contains_iff_mem.mpr h)
+      have hxS : x ∉ S := fun h => hxacc (hS x h)
+      have hold : old x = false := by
+        cases h : old x
+        · rfl
+        · exfalso
+          have : x ∈ it'.filter old := List.mem_filter.mpr ⟨hx_it, h⟩
+          rw [← h0] at this
+          exact hxS (List.mem_filter.mp this).1
+      have hKx : (old x || P.contains x) = false := by
+        have : P.contains x = false := contains_false_iff.mpr hxP
+        rw [hold, this]; rfl
+      have hK' : ∀ y, y ≠ x → (old y || (P ++ [x]).contains y) = (old y || P.contains y) := by
+        intro y hyx; simp [hyx]
+      have hK'x : (old x || (P ++ [x]).contains x) = true := by simp
+      -- the new accumulator
+      cases hl : P.getLast? with
+      | none =>
+        have hPnil : P = [] := List.getLast?_eq_none_iff.mp hl
+        subst hPnil
+        have hstep : storeStep (acc, none) x = (x :: acc, ([] ++ [x]).getLast?) := by
+          unfold storeStep; rw [if_neg hc]; rfl
+        rw [hstep]
+        apply ih ([] ++ [x]) (x :: acc) hdec' (List.nodup_cons.mpr ⟨hxacc, hnd⟩)
+        · intro y hy; rcases List.mem_cons.mp hy with h | h
+          · right; simp [h]
+          · rcases hsub y h with h' | h'
+            · exact Or.inl h'
+            · simp at h'
+        · intro y hy; exact List.mem_cons_of_mem _ (hS y hy)
+        · intro y hy; have : y = x := by simpa using hy
+          simp [this]
+        · have hit0 : it' = x :: Q := by simpa using hdec
+          have e1 : it'.filter (fun y => old y || ([] : List Nat).contains y)
+              = Q.filter (fun y => old y || ([] : List Nat).contains y) := by
+            rw [hit0, List.filter_cons]; simp only [hKx, Bool.false_eq_true, if_false]
+          have e2 : it'.filter (fun y => old y || (([] : List Nat) ++ [x]).contains y)
+              = x :: Q.filter (fun y => old y || (([] : List Nat) ++ [x]).contains y) := by
+            rw [hit0, List.filter_cons, if_pos hK'x]
+          rw [e2, List.filter_cons, if_pos hK'x]
+          rw [filter_congr_mem (l := acc) (fun y hy => hK' y (fun e => hxacc (e ▸ hy)))]
+          rw [hf, e1]
+          rw [filter_congr_mem (l := Q) (fun y hy => hK' y (fun e => hxQ (e ▸ hy)))]
+        · rw [List.filter_cons]
+          have : S.contains x = false := contains_false_iff.mpr hxS
+          simp only [this, Bool.false_eq_true, if_false]; exact hs
+      | some p =>
+        obtain ⟨P0, hP0⟩ := List.getLast?_eq_some_iff.mp hl
+        subst hP0
+        have hstep : storeStep (acc, some p) x = (insertAfter p x acc, ((P0 ++ [p]) ++ [x]).getLast?) := by
+          unfold storeStep; rw [if_neg hc, List.getLast?_concat]
+        rw [hstep]
+        have hpP0 : p ∉ P0 := by
+          intro h
+          have h1 : (P0 ++ [p]).Nodup := (List.nodup_append.mp hnd_it).1
+          exact (List.nodup_append.mp h1).2.2 p h p (by simp) rfl
+        apply ih ((P0 ++ [p]) ++ [x]) (insertAfter p x acc) hdec' (nodup_insertAfter hnd hxacc)
+        · intro y hy; rcases mem_insertAfter.mp hy with h | h
+          · right; simp [h]
+          · rcases hsub y h with h' | h'
+            · exact Or.inl h'
+            · exact Or.inr (List.mem_append.mpr (Or.inl h'))
+        · intro y hy; exact mem_insertAfter.mpr (Or.inr (hS y hy))
+        · intro y hy; rcases List.mem_append.mp hy with h | h
+          · exact mem_insertAfter.mpr (Or.inr (hP y h))
+          · have : y = x := by simpa using h
+            exact mem_insertAfter.mpr (Or.inl this)
+        · rw [filter_insertAfter_keep _ hK'x acc (by intro a _ ha; subst ha; simp)]
+          rw [filter_congr_mem (l := acc) (fun y hy => hK' y (fun e => hxacc (e ▸ hy))), hf]
+          have hit0 : it' = P0 ++ p :: x :: Q := by rw [hdec]; simp
+          have hKp : (old p || (P0 ++ [p]).contains p) = true := by simp
+          have hxP0 : x ∉ P0 := fun h => hxP (List.mem_append.mpr (Or.inl h))
+          have hpx : p ≠ x := fun e => hxP (by simp [e])
+          rw [hit0]
+          simp only [List.filter_append, List.filter_cons, hKp, hKx, hK'x, if_true, Bool.false_eq_true, if_false]
+          have hKp' : (old p || (P0 ++ [p] ++ [x]).contains p) = true := by simp
+          simp only [hKp', if_true]
+          rw [insertAfter_append (by
+            intro h; exact hpP0 (List.mem_filter.mp h).1)]
+          rw [filter_congr_mem (l := P0) (fun y hy => hK' y (fun e => hxP0 (e ▸ hy))),
+            filter_congr_mem (l := Q) (fun y hy => hK' y (fun e => hxQ (e ▸ hy)))]
+        · rw [filter_insertAfter_drop _ (contains_false_iff.mpr hxS)]; exact hs
+
+
+theorem iter_mem_ids (root : Nat) (att : List Change) (hwf : WFAtt att) (hroot : root ∈ att.map (·.id)) :
+    ∀ y ∈ iter root att, y ∈ att.map (·.id) := by
+  obtain ⟨rk, hk1, hk2, _⟩ := wf_rank hwf
+  have hext := visit_ext (children att) rk hk1 (att.length + 1) root [] (by have := hk2 root; omega) (good_nil _)
+  intro y hy
+  obtain ⟨pre, hp, hd⟩ := hext.pre
+  have hpre : iter root att = pre := by simpa [iter, rpo] using hp
+  rw [hpre] at hy
+  obtain ⟨x, hx1, hx2⟩ := hd y hy
+  have : x = root := by simpa using hx1
+  subst this
+  have : ∀ a b, Desc (children att) a b → a ∈ att.map (·.id) → b ∈ att.map (·.id) := by
+    intro a b hab
+    induction hab with
+    | refl => exact id
+    | step hc _ ih => exact fun _ => ih (children_mem_ids hc)
+  exact this x y hx2 hroot
+
+theorem iter_good (root : Nat) (att : List Change) (hwf : WFAtt att) : Good (children att) (iter root att) := by
+  obtain ⟨rk, hk1, hk2, _⟩ := wf_rank hwf
+  exact (visit_ext (children att) rk hk1 (att.length + 1) root [] (by have := hk2 root; omega) (good_nil _)).good
+
+/-- **storage**: after an addition the stored sequence restricted to the in-memory changes is the iteration,
+entries stored before are never moved, nothing is stored twice -/
+theorem storeInsert_spec (stored : List Nat) (root : Nat) (att news : List Change)
+    (hwf : WFAtt (att ++ news)) (hroot : root ∈ att.map (·.id)) (hnd : stored.Nodup)
+    (hst : stored.filter (fun x => (att.map (·.id)).contains x) = iter root att)
+    (hfresh : ∀ n ∈ news, n.id ∉ stored) :
+    (storeInsert stored (iter root (att ++ news))).filter (fun x => ((att ++ news).map (·.id)).contains x)
+        = iter root (att ++ news) ∧
+    (storeInsert stored (iter root (att ++ news))).filter (fun x => stored.contains x) = stored ∧
+    (storeInsert stored (iter root (att ++ news))).Nodup := by
+  have hroot' : root ∈ (att ++ news).map (·.id) := by
+    rw [List.map_append]; exact List.mem_append.mpr (Or.inl hroot)
+  have hmem := iter_mem_ids root (att ++ news) hwf hroot'
+  have hgood := iter_good root (att ++ news) hwf
+  have hgrow := iter_growth root att news hwf hroot
+  have hnew : ∀ x ∈ iter root (att ++ news), (att.map (·.id)).contains x = false → x ∉ stored := by
+    intro x hx hold
+    have h1 := hmem x hx
+    rw [List.map_append, List.mem_append] at h1
+    rcases h1 with h1 | h1
+    · rw [List.contains_iff_mem.mpr h1] at hold; exact Bool.noConfusion hold
+    · obtain ⟨n, hn, rfl⟩ := List.mem_map.mp h1
+      exact hfresh n hn
+  have spec := storeFold_spec (fun x => (att.map (·.id)).contains x) stored (iter root (att ++ news)) hgood.1
+    (by rw [hst, hgrow]) hnew (iter root (att ++ news)) [] stored (by simp) hnd
+    (fun x hx => Or.inl hx) (fun x hx => hx) (by simp)
+    (by
+      have : ∀ y, ((att.map (·.id)).contains y || ([] : List Nat).contains y) = (att.map (·.id)).contains y := by
+        intro y; simp
+      rw [filter_congr_mem (fun y _ => this y), filter_congr_mem (l := iter root (att ++ news)) (fun y _ => this y), hst, hgrow])
+    (by rw [List.filter_eq_self]; intro y hy; exact List.contains_iff_mem.mpr hy)
+  rw [storeInsert_eq]
+  obtain ⟨s1, s2, s3, s4⟩ := spec
+  refine ⟨?_, s2, s3⟩
+  refine (filter_congr_mem ?_).trans s1
+  intro y hy
+  symm
+  rcases s4 y hy with hyS | hyI
+  · by_cases hyI : y ∈ iter root (att ++ news)
+    · rw [List.contains_iff_mem.mpr hyI, List.contains_iff_mem.mpr (hmem y hyI)]; simp
+    · rw [contains_false_iff.mpr hyI, Bool.or_false]
+      cases hold : (att.map (·.id)).contains y
+      · cases hM : ((att ++ news).map (·.id)).contains y
+        · rfl
+        · exfalso
+          have h1 := List.contains_iff_mem.mp hM
+          rw [List.map_append, List.mem_append] at h1
+          rcases h1 with h1 | h1
+          · rw [List.contains_iff_mem.mpr h1] at hold; exact Bool.noConfusion hold
+          · obtain ⟨n, hn, rfl⟩ := List.mem_map.mp h1
+            exact hfresh n hn hyS
+      · have h1 := List.contains_iff_mem.mp hold
+        have : y ∈ (att ++ news).map (·.id) := by rw [List.map_append]; exact List.mem_append.mpr (Or.inl h1)
+        rw [List.contains_iff_mem.mpr this]
+  · rw [List.contains_iff_mem.mpr hyI, List.contains_iff_mem.mpr (hmem y hyI)]; simp
+
+
+theorem pos_inj {l : List Nat} {y z : Nat} (hy : y ∈ l) (h : pos l y = pos l z) : y = z := by
+  induction l with
+  | nil => simp at hy
+  | cons a l ih =>
+    by_cases hay : a = y
+    · by_cases haz : a = z
+      · rw [← hay, haz]
+      · have h1 : pos (a :: l) y = 0 := by simp [pos, hay]
+        have h2 : pos (a :: l) z = pos l z + 1 := by simp [pos, haz]
+        omega
+    · by_cases haz : a = z
+      · have h1 : pos (a :: l) z = 0 := by simp [pos, haz]
+        have h2 : pos (a :: l) y = pos l y + 1 := by simp [pos, hay]
+        omega
+      · have h1 : pos (a :: l) z = pos l z + 1 := by simp [pos, haz]
+        have h2 : pos (a :: l) y = pos l y + 1 := by simp [pos, hay]
+        rcases List.mem_cons.mp hy with e | e
+        · exact absurd e.symm hay
+        · exact ih e (by omega)
+
+theorem pos_filter_lt_rev (k : Nat → Bool) (l : List Nat) (y z : Nat) (hy : k y = true) (hz : k z = true)
+    (hzl : z ∈ l) (h : pos (l.filter k) y < pos (l.filter k) z) : pos l y < pos l z := by
+  rcases Nat.lt_trichotomy (pos l y) (pos l z) with h1 | h1 | h1
+  · exact h1
+  · have : z = y := pos_inj hzl h1.symm
+    subst this; omega
+  · have := pos_filter_lt k l z y hz hy h1
+    omega
+
+
+
+/-! ### causal arrival: everything attaches directly; confluence -/
+
+theorem has_mono_append {t : T} {x : Nat} {c : Change} (h : t.has x = true) :
+    ({ t with att := t.att ++ [c] } : T).has x = true := by
+  rw [has_iff] at h ⊢
+  simp only [List.map_append, List.mem_append]; exact Or.inl h
+
+/-- with nothing unattached the cascade over the waiters does nothing -/
+theorem cascade_noop (f : Nat) (ws : List Nat) : ∀ (s : T), s.unatt = [] →
+    ws.foldl (fun t w =>
+      match t.unatt.find? (·.id == w) with
+      | none => t
+      | some n =>
+        match canAttach t n false with
+        | (true, _, _) => attach f t n
+        | (false, true, _) => { t with unatt := t.unatt.filter (·.id != n.id) }
+        | _ => t) s = s := by
+  induction ws with
+  | nil => intro s _; rfl
+  | cons w ws ih =>
+    intro s hs
+    simp only [List.foldl_cons, hs, List.find?_nil]
+    exact ih s hs
+
+/-- attaching with nothing unattached: `c` is appended, nothing else happens -/
+theorem attach_direct (f : Nat) (t : T) (c : Change) (hun : t.unatt = []) :
+    (attach (f + 1) t c).att = t.att ++ [c] ∧ (attach (f + 1) t c).unatt = [] ∧
+    (attach (f + 1) t c).root = t.root := by
+  have h := cascade_noop f ((t.wait.filter (·.1 == c.id)).map (·.2))
+    { t with att := t.att ++ [c], added := t.added ++ [c.id], unatt := t.unatt.filter (·.id != c.id) }
+    (by simp [hun])
+  unfold attach
+  simp only
+  refine ⟨(congrArg T.att h).trans rfl, (congrArg T.unatt h).trans (by simp [hun]), (congrArg T.root h).trans rfl⟩
+
+theorem canAttach_ok {t : T} {c : Change} (hp : ∀ p ∈ c.prevs, t.has p = true) (hs : t.has c.snap = true) :
+    canAttach t c true = (true, false, []) := by
+  unfold canAttach
+  have : c.prevs.filter (fun p => !t.has p) = [] := by
+    rw [List.filter_eq_nil_iff]; intro p hpm; simp [hp p hpm]
+  simp [this, hs]
+
+/-- one change whose previous ids and snapshot are attached, arriving at a tree with nothing unattached -/
+theorem addOne_direct (t : T) (c : Change) (hun : t.unatt = []) (hroot : t.root.isSome = true)
+    (hp : ∀ p ∈ c.prevs, t.has p = true) (hs : t.has c.snap = true) :
+    (addOne t c).att = t.att ++ [c] ∧ (addOne t c).unatt = [] ∧ (addOne t c).root = t.root := by
+  unfold addOne
+  split
+  · rename_i h; rw [h] at hroot; simp at hroot
+  · rw [canAttach_ok hp hs]
+    simp only
+    rw [hun]
+    exact attach_direct 0 t c hun
+
+/-- "held or earlier": every previous id and the snapshot of each element is attached in `t` or is the id of
+an earlier element -/
+def CausalFor (t : T) (l : List Change) : Prop :=
+  ∀ l1 c l2, l = l1 ++ c :: l2 →
+    (∀ p ∈ c.prevs, t.has p = true ∨ p ∈ l1.map (·.id)) ∧ (t.has c.snap = true ∨ c.snap ∈ l1.map (·.id))
+
+/-- **causal arrival**: a causally ordered run of changes is attached completely and directly (the wait list is
+never used); the result is the old attachment list followed by the changes not yet attached, in order -/
+theorem addAll_causal : ∀ (l : List Change) (t : T), t.unatt = [] → t.root.isSome = true → CausalFor t l →
+    (addAll t l).unatt = [] ∧ (addAll t l).root = t.root ∧
+    (∀ x, t.has x = true → (addAll t l).has x = true) ∧ (∀ c ∈ l, (addAll t l).has c.id = true) ∧
+    (∀ d ∈ (addAll t l).att, d ∈ t.att ∨ d ∈ l) ∧
+    ((t.att.map (·.id)).Nodup → ((addAll t l).att.map (·.id)).Nodup) := by
+  intro l
+  induction l with
+  | nil => intro t hun _ _; exact ⟨hun, rfl, fun _ h => h, by simp, fun d hd => Or.inl hd, fun h => h⟩
+  | cons c l ih =>
+    intro t hun hroot hc
+    unfold addAll
+    simp only [List.foldl_cons]
+    have hc0 := hc [] c l rfl
+    -- the state after `c`
+    have key : ∃ t', (if t.has c.id || t.hasUn c.id then t else addOne t c) = t' ∧ t'.unatt = [] ∧
+        t'.root = t.root ∧ (∀ x, t.has x = true → t'.has x = true) ∧ t'.has c.id = true ∧
+        (∀ d ∈ t'.att, d ∈ t.att ∨ d = c) ∧ ((t.att.map (·.id)).Nodup → (t'.att.map (·.id)).Nodup) := by
+      by_cases hh : t.has c.id = true
+      · exact ⟨t, by simp [hh], hun, rfl, fun _ h => h, hh, fun d hd => Or.inl hd, fun h => h⟩
+      · have hhf : t.has c.id = false := by simpa using hh
+        have hunf : t.hasUn c.id = false := by simp [T.hasUn, hun]
+        have hp : ∀ p ∈ c.prevs, t.has p = true := by
+          intro p hp; rcases hc0.1 p hp with h | h
+          · exact h
+          · simp at h
+        have hs : t.has c.snap = true := by
+          rcases hc0.2 with h | h
+          · exact h
+          · simp at h
+        obtain ⟨a1, a2, a3⟩ := addOne_direct t c hun hroot hp hs
+        refine ⟨addOne t c, by simp [hhf, hunf], a2, a3, ?_, ?_, ?_, ?_⟩
+        · intro x hx; rw [has_iff] at hx ⊢; rw [a1]; simp only [List.map_append, List.mem_append]; exact Or.inl hx
+        · rw [has_iff, a1]; simp
+        · intro d hd; rw [a1] at hd
+          rcases List.mem_append.mp hd with h | h
+          · exact Or.inl h
+          · right; simpa using h
+        · intro hnd
+          rw [a1, List.map_append, List.nodup_append]
+          refine ⟨hnd, by simp, ?_⟩
+          intro x hx y hy
+          have : y = c.id := by simpa using hy
+          subst this
+          intro e; subst e
+          rw [← has_iff] at hx; rw [hx] at hhf; exact Bool.noConfusion hhf
+    obtain ⟨t', ht', u', r', m', hc', sub', nd'⟩ := key
+    rw [ht']
+    have hcaus : CausalFor t' l := by
+      intro l1 d l2 hdec
+      have := hc (c :: l1) d l2 (by rw [hdec]; rfl)
+      constructor
+      · intro p hp
+        rcases this.1 p hp with h | h
+        · exact Or.inl (m' p h)
+        · rcases List.mem_cons.mp h with e | e
+          · left; rw [e]; exact hc'
+          · exact Or.inr e
+      · rcases this.2 with h | h
+        · exact Or.inl (m' _ h)
+        · rcases List.mem_cons.mp h with e | e
+          · left; rw [e]; exact hc'
+          · exact Or.inr e
+    obtain ⟨i1, i2, i3, i4, i5, i6⟩ := ih t' u' (by rw [r']; exact hroot) hcaus
+    refine ⟨i1, i2.trans r', fun x hx => i3 x (m' x hx), ?_, ?_, fun h => i6 (nd' h)⟩
+    · intro d hd
+      rcases List.mem_cons.mp hd with e | e
+      · rw [e]; exact i3 _ hc'
+      · exact i4 d e
+    · intro d hd
+      rcases i5 d hd with h | h
+      · rcases sub' d h with h' | h'
+        · exact Or.inl h'
+        · right; simp [h']
+      · exact Or.inr (List.mem_cons_of_mem _ h)
+
+
+theorem nodup_of_map_id {l : List Change} (h : (l.map (·.id)).Nodup) : l.Nodup := by
+  unfold List.Nodup at h ⊢
+  exact List.Pairwise.of_map (fun c => c.id) (fun a b hab e => hab (by rw [e])) h
+
+theorem add_tree_unatt (t0 : T) (batch : List Change) : (add t0 batch).tree.unatt = [] := by
+  unfold add
+  simp only
+  split
+  · rfl
+  · split <;> (try split) <;> rfl
+
+/-- a sequence of additions -/
+def addSeq (t : T) (L : List (List Change)) : T := L.foldl (fun t b => (add t b).tree) t
+
+theorem CausalFor.prefix {t : T} {a b : List Change} (h : CausalFor t (a ++ b)) : CausalFor t a := by
+  intro l1 c l2 hdec
+  exact h l1 c (l2 ++ b) (by rw [hdec]; simp)
+
+/-- **causal arrival, any batching**: additions whose concatenation is causally ordered attach everything -/
+theorem addSeq_causal : ∀ (L : List (List Change)) (t : T), t.unatt = [] → t.root.isSome = true →
+    CausalFor t L.flatten →
+    (addSeq t L).unatt = [] ∧ (addSeq t L).root = t.root ∧
+    (∀ x, t.has x = true → (addSeq t L).has x = true) ∧ (∀ c ∈ L.flatten, (addSeq t L).has c.id = true) ∧
+    (∀ d ∈ (addSeq t L).att, d ∈ t.att ∨ d ∈ L.flatten) ∧
+    ((t.att.map (·.id)).Nodup → ((addSeq t L).att.map (·.id)).Nodup) := by
+  intro L
+  induction L with
+  | nil => intro t hun _ _; exact ⟨hun, rfl, fun _ h => h, by simp, fun d hd => Or.inl hd, fun h => h⟩
+  | cons b L ih =>
+    intro t hun hroot hc
+    simp only [List.flatten_cons] at hc
+    obtain ⟨a1, a2, a3, a4, a5, a6⟩ := addAll_causal b { t with added := [] } hun hroot hc.prefix
+    -- the tree after the first addition
+    have e := add_tree_att t b
+    have hatt : (add t b).tree.att = (addAll { t with added := [] } b).att := by rw [e.1]; rfl
+    have hrt : (add t b).tree.root = t.root := by rw [e.2]; exact a2
+    have hhas : ∀ x, (add t b).tree.has x = (addAll { t with added := [] } b).has x := by
+      intro x; unfold T.has; rw [hatt]
+    have hcaus : CausalFor (add t b).tree L.flatten := by
+      intro l1 d l2 hdec
+      have := hc (b ++ l1) d l2 (by rw [hdec]; simp)
+      constructor
+      · intro p hp
+        rcases this.1 p hp with h | h
+        · left; rw [hhas]; exact a3 p h
+        · rw [List.map_append, List.mem_append] at h
+          rcases h with h | h
+          · obtain ⟨q, hq, hqp⟩ := List.mem_map.mp h
+            left; rw [hhas, ← hqp]; exact a4 q hq
+          · exact Or.inr h
+      · rcases this.2 with h | h
+        · left; rw [hhas]; exact a3 _ h
+        · rw [List.map_append, List.mem_append] at h
+          rcases h with h | h
+          · obtain ⟨q, hq, hqp⟩ := List.mem_map.mp h
+            left; rw [hhas, ← hqp]; exact a4 q hq
+          · exact Or.inr h
+    obtain ⟨i1, i2, i3, i4, i5, i6⟩ := ih (add t b).tree (add_tree_unatt t b) (by rw [hrt]; exact hroot) hcaus
+    show (addSeq (add t b).tree L).unatt = [] ∧ _
+    refine ⟨i1, i2.trans hrt, ?_, ?_, ?_, ?_⟩
+    · intro x hx; apply i3; rw [hhas]; exact a3 x hx
+    · intro c hcm
+      simp only [List.flatten_cons, List.mem_append] at hcm
+      rcases hcm with h | h
+      · apply i3; rw [hhas]; exact a4 c h
+      · exact i4 c h
+    · intro d hd
+      rcases i5 d hd with h | h
+      · rw [hatt] at h
+        rcases a5 d h with h' | h'
+        · exact Or.inl h'
+        · right; simp only [List.flatten_cons, List.mem_append]; exact Or.inl h'
+      · right; simp only [List.flatten_cons, List.mem_append]; exact Or.inr h
+    · intro hnd; apply i6; rw [hatt]; exact a6 hnd
+
+/-- **confluence for causal arrival**: two sequences of additions that deliver the same changes, each in a
+causal order (any batching, any duplication), produce the same attached set and the same presented sequence -/
+theorem addSeq_confluent (t : T) (L1 L2 : List (List Change)) (hun : t.unatt = []) (r : Nat) (hroot : t.root = some r)
+    (hnd : (t.att.map (·.id)).Nodup)
+    (huniq : ∀ c ∈ t.att ++ L1.flatten ++ L2.flatten, ∀ d ∈ t.att ++ L1.flatten ++ L2.flatten, c.id = d.id → c = d)
+    (h1 : CausalFor t L1.flatten) (h2 : CausalFor t L2.flatten)
+    (hsame : ∀ c, c ∈ L1.flatten ↔ c ∈ L2.flatten) :
+    (addSeq t L1).att.Perm (addSeq t L2).att ∧ iter r (addSeq t L1).att = iter r (addSeq t L2).att := by
+  have hr : t.root.isSome = true := by simp [hroot]
+  obtain ⟨_, _, a3, a4, a5, a6⟩ := addSeq_causal L1 t hun hr h1
+  obtain ⟨_, _, b3, b4, b5, b6⟩ := addSeq_causal L2 t hun hr h2
+  have mem1 : ∀ d, d ∈ (addSeq t L1).att ↔ d ∈ t.att ∨ d ∈ L1.flatten := by
+    intro d; constructor
+    · exact a5 d
+    · rintro (h | h)
+      · -- an attached change stays attached (same id, unique ids)
+        have := a3 d.id (has_iff.mpr (List.mem_map.mpr ⟨d, h, rfl⟩))
+        obtain ⟨e, he, hid⟩ := List.mem_map.mp (has_iff.mp this)
+        have hin : e ∈ t.att ++ L1.flatten ++ L2.flatten := by
+          rcases a5 e he with h' | h'
+          · simp [h']
+          · simp [h']
+        have : e = d := huniq e hin d (by simp [h]) hid
+        exact this ▸ he
+      · have := a4 d h
+        obtain ⟨e, he, hid⟩ := List.mem_map.mp (has_iff.mp this)
+        have hin : e ∈ t.att ++ L1.flatten ++ L2.flatten := by
+          rcases a5 e he with h' | h'
+          · simp [h']
+          · simp [h']
+        have : e = d := huniq e hin d (by simp [h]) hid
+        exact this ▸ he
+  have mem2 : ∀ d, d ∈ (addSeq t L2).att ↔ d ∈ t.att ∨ d ∈ L2.flatten := by
+    intro d; constructor
+    · exact b5 d
+    · rintro (h | h)
+      · have := b3 d.id (has_iff.mpr (List.mem_map.mpr ⟨d, h, rfl⟩))
+        obtain ⟨e, he, hid⟩ := List.mem_map.mp (has_iff.mp this)
+        have hin : e ∈ t.att ++ L1.flatten ++ L2.flatten := by
+          rcases b5 e he with h' | h'
+          · simp [h']
+          · simp [h']
+        have : e = d := huniq e hin d (by simp [h]) hid
+        exact this ▸ he
+      · have := b4 d h
+        obtain ⟨e, he, hid⟩ := List.mem_map.mp (has_iff.mp this)
+        have hin : e ∈ t.att ++ L1.flatten ++ L2.flatten := by
+          rcases b5 e he with h' | h'
+          · simp [h']
+          · simp [h']
+        have : e = d := huniq e hin d (by simp [h]) hid
+        exact this ▸ he
+  have hperm : (addSeq t L1).att.Perm (addSeq t L2).att := by
+    rw [List.perm_ext_iff_of_nodup (nodup_of_map_id (a6 hnd)) (nodup_of_map_id (b6 hnd))]
+    intro d; rw [mem1, mem2, hsame]
+  exact ⟨hperm, iter_perm hperm r⟩
+
+
 end AnySync.Tree
